@@ -1143,3 +1143,80 @@ def _spline_call(I, st, selfv, pos, kws, node):
 @libfn("numpy.loadtxt")
 def _np_loadtxt(I, st, pos, kws, node):
     return I.specs.os_model.loadtxt(I, st, pos, kws, node)
+
+
+# =========================================================================== stdlib (assumed contracts)
+
+@libfn("collections.namedtuple")
+def _namedtuple(I, st, pos, kws, node):
+    name, fields = pos[0], pos[1]
+    rs = L.rseq(I, st, fields)
+    n = rs.conc_len()
+    fl = [rs.elem(z3.IntVal(k)).s for k in range(n)]
+    return [(st, FunV("lib", name="collections.namedtuple.__new__", tname=name.s, fields=fl))]
+
+
+def _nt_new(I, st, pos, kws, node, fv=None):
+    raise EngineError("namedtuple constructor needs its class")
+
+
+def call_namedtuple(I, st, fv, pos, kws, node):
+    fields = fv.fields
+    vals = list(pos)
+    for f in fields[len(vals):]:
+        if f not in kws:
+            return [(st, Exc("TypeError", f"missing argument {f}", I.where(node)))]
+        vals.append(kws[f])
+    if len(vals) != len(fields) or any(k not in fields for k in kws):
+        return [(st, Exc("TypeError", "namedtuple arguments", I.where(node)))]
+    return [(st, NamedTupV(fv.tname, fields, vals))]
+
+
+def _concrete_strs(vals):
+    return all(isinstance(v, StrV) and v.concrete for v in vals)
+
+
+@libfn("os.path.join", "posixpath.join")
+def _path_join(I, st, pos, kws, node):
+    if _concrete_strs(pos):
+        import posixpath
+        return [(st, StrV(posixpath.join(*[p.s for p in pos])))]
+    # ASSUMED: the joined components are relative (no leading '/'): join = concatenation with '/'
+    I.assumed.add("os.path.join: later components are relative paths (plain concatenation with '/')")
+    t = pos[0].term()
+    for p in pos[1:]:
+        t = z3.Concat(t, z3.StringVal("/"), p.term())
+    return [(st, StrV(t))]
+
+
+ENV_SET = z3.Function("ENV_SET", z3.StringSort(), z3.BoolSort())
+ENV_VAL = z3.Function("ENV_VAL", z3.StringSort(), z3.StringSort())
+EXPANDUSER = z3.Function("EXPANDUSER", z3.StringSort(), z3.StringSort())
+
+
+@libfn("os.environ.get")
+def _environ_get(I, st, pos, kws, node):
+    """ASSUMED: the process environment is a fixed map during the call"""
+    name = pos[0]
+    default = pos[1] if len(pos) > 1 else NONE
+    if isinstance(default, NoneV):
+        raise EngineError("environ.get without default")
+    return [(st, StrV(z3.If(ENV_SET(name.term()), ENV_VAL(name.term()), default.term())))]
+
+
+@libfn("os.path.expanduser", "posixpath.expanduser")
+def _expanduser(I, st, pos, kws, node):
+    return [(st, StrV(EXPANDUSER(pos[0].term())))]
+
+
+@libfn("os.makedirs")
+def _makedirs(I, st, pos, kws, node):
+    """ASSUMED: os.makedirs(p, exist_ok=True) creates directories only (no file content is touched)"""
+    ok = kws.get("exist_ok")
+    res = []
+    if not (isinstance(ok, Num) and z3.is_true(z3.simplify(ok.t))):
+        bad = I.fork(st)
+        res.append((bad, Exc("FileExistsError", "makedirs", I.where(node))))
+    st.ghost.setdefault("fs_actions", []).append(("makedirs", pos[0]))
+    res.append((st, NONE))
+    return res
